@@ -38,6 +38,15 @@ OPS = [
     ("del-extend-stmt", r"^[ \t]+[a-z_][\w.]*\.(?:extend|push)\((?:[^;\n]|\n(?![ \t]*\}))*?\);\n", ""),
     ("name-literal", r"\"[a-z_]{2,14}\"(?= =>)", "\"zz_other\""), ("name-literal-rhs", r"(?<==> )\"[a-zA-Z_]{2,14}\"", "\"zz_other\""),
     ("some-unwrap", r"\.unwrap_or\(&name\)", ""),
+    # fourth generation: dropped conjuncts, forced branches, skipped elements
+    ("drop-conj-rhs", r" && !?[a-z_][\w.]*(?:\(\))?(?= \{| \)|\))", ""), ("drop-disj-rhs", r" \|\| !?[a-z_][\w.]*(?:\(\))?(?= \{| \)|\))", ""),
+    ("if-true", r"(?<=\bif )!?[a-z_][\w.]*(?:\(\))?(?= \{)", "true"), ("if-false", r"(?<=\bif )!?[a-z_][\w.]*(?:\(\))?(?= \{)", "false"),
+    ("iter-skip1", r"\.iter\(\)(?=\s*\.(?:map|enumerate|zip|filter|flat_map|rev))", ".iter().skip(1)"),
+    ("plus1-drop", r" \+ 1\b", ""), ("minus1-drop", r" - 1\b", ""),
+    ("quote-deref-drop", r"(?<=[(\s])\*#(?=[a-z])", "#"), ("quote-mut-drop", r"&mut self\b", "&self"),
+    ("some-to-none", r"= Some\(([a-z_][\w.]*)\);", r"= None;"),
+    ("unwrap-or-default", r"\.unwrap_or\(true\)", ".unwrap_or(false)"), ("unwrap-or-default2", r"\.unwrap_or\(false\)", ".unwrap_or(true)"),
+    ("lt-le", r" < (?=[a-z0-9])", " <= "), ("gt-ge", r" > (?=[a-z0-9])", " >= "),
 ]
 
 def sites():
